@@ -64,11 +64,11 @@ PathTo(E, R, p, fuel) ==
 (* of 1|2 elements is 1..4 bytes or 1|2 UTF-16 units long, WidthIn of      *)
 (* Yata.tla), "elem" for arrays.  A length must end on a character         *)
 (* boundary of the content it runs over.                                   *)
-(* number of elements of v behind gap pos covered by n units; -1 = none    *)
+(* number of elements of v behind gap pos covered by n units; Len(v) + 1 = none *)
 Span(E, v, pos, n, u) ==
   LET w0 == WidthOfSeq(E, v, pos, u)
       K  == {k \in 0..(Len(v) - pos) : OnCharBoundary(E, v, pos + k) /\ WidthOfSeq(E, v, pos + k, u) - w0 = n}
-  IN IF K = {} THEN -1 ELSE CHOOSE k \in K : \A j \in K : k <= j
+  IN IF K = {} THEN Len(v) + 1 ELSE CHOOSE k \in K : \A j \in K : k <= j
 
 (* <<the script fits the value it is applied to, the resulting value>> *)
 RECURSIVE RunScript(_, _, _, _, _)
@@ -77,7 +77,7 @@ RunScript(E, ops, v, pos, u) ==
   ELSE LET op == ops[1]
        IN CASE op[1] \in {"ret", "del"} ->
                  LET k == Span(E, v, pos, op[2], u)
-                 IN IF k < 0 THEN <<FALSE, v>>
+                 IN IF k > Len(v) THEN <<FALSE, v>>
                     ELSE IF op[1] = "ret" THEN RunScript(E, Tail(ops), v, pos + k, u)
                     ELSE RunScript(E, Tail(ops), SubSeq(v, 1, pos) \o SubSeq(v, pos + k + 1, Len(v)), pos, u)
             [] op[1] = "ins" ->
